@@ -23,6 +23,13 @@ theorem iNETPackage_unpack_state_independent (t u : Pkg) (buf r : Bytes) (h : (P
   · simp
   · simp
 
+/-- non-vacuity: a package object holding other values decodes a 5-byte-payload package (padded) followed by a byte -/
+example :
+    let a : Pkg := { Pkg.fresh with definitionID := 7, flags := 255, payload := [1, 2, 3, 4, 5] }
+    let t : Pkg := { Pkg.fresh with definitionID := 1, payload := [9] }
+    ∃ b, (Pkg.pack a).2 = .ok b ∧ (Pkg.unpack t (b ++ [0xEE])).2 = .ok [0xEE] :=
+  ⟨_, rfl, rfl⟩
+
 theorem packPkgs_idem (ps : List Pkg) : packPkgs (packPkgs ps).1 = packPkgs ps := by
   induction ps with
   | nil => rfl
@@ -74,5 +81,15 @@ theorem iNET_unpack_state_independent (t u : State) (buf : Bytes) (h : (unpack t
         · simp
     · simp
     · simp
+
+/-- non-vacuity: an object holding one package and one application field decodes a 64-byte packet with two
+    application fields and two packages, and ends with exactly those -/
+example :
+    let a : State := { fresh with type := 3, app_fields := [1, 2],
+                                  packages := [{ Pkg.fresh with definitionID := 7, payload := [1, 2, 3, 4, 5] }, Pkg.fresh] }
+    let t : State := { fresh with app_fields := [9], packages := [Pkg.fresh] }
+    ∃ b, (pack a).2 = .ok b ∧ b.length = 64 ∧ (unpack t b).2 = .ok () ∧ (unpack t b).1.packages.length = 2 ∧
+      (unpack t b).1.app_fields = [1, 2] :=
+  ⟨_, rfl, rfl, rfl, rfl, rfl⟩
 
 end Acra.Props.C13
